@@ -139,6 +139,7 @@ type Frame struct {
 	pendingHO map[string]*Event
 	frameID   int
 	deferKeys map[*ssa.Defer]string
+	pseudoOrd map[ssa.Instruction]int
 }
 
 type predEdge struct {
@@ -514,7 +515,11 @@ func (fr *Frame) read(l *LVal, st *State) Term {
 
 func (fr *Frame) write(l *LVal, st *State, nv Term) {
 	root := fr.rootVal(l, st)
-	fr.setRoot(l, st, fr.upd(root, l.path, nv))
+	if len(l.path) > 0 {
+		root = fr.c.sc.define("root", root)
+		nv = fr.c.sc.define("nv", nv)
+	}
+	fr.setRoot(l, st, fr.c.sc.define("upd", fr.upd(root, l.path, nv)))
 }
 
 func (fr *Frame) upd(cur Term, path []pathStep, nv Term) Term {
@@ -530,10 +535,21 @@ func (fr *Frame) upd(cur Term, path []pathStep, nv Term) Term {
 		} else {
 			es = c.sortOf(s.inT)
 		}
-		inner := fr.upd(sel(cur, *s.idx, es), path[1:], nv)
+		sub := sel(cur, *s.idx, es)
+		if len(path) > 1 {
+			sub = c.sc.define("sub", sub)
+		}
+		inner := fr.upd(sub, path[1:], nv)
 		return sto(cur, *s.idx, inner)
 	}
-	inner := fr.upd(c.fieldSel(cur, s.inT, s.field), path[1:], nv)
+	sub := c.fieldSel(cur, s.inT, s.field)
+	if len(path) > 1 {
+		sub = c.sc.define("sub", sub)
+	}
+	inner := fr.upd(sub, path[1:], nv)
+	if len(path) > 1 {
+		inner = c.sc.define("inner", inner)
+	}
 	return c.fieldUpd(cur, s.inT, s.field, inner)
 }
 
